@@ -58,7 +58,7 @@ class C12(Check):
     floor_nontrivial = 30
     required_counters = ("patches_checked", "alignment_checks", "refusal_tests", "records_nearest_checked")
     shards = (12, 16)
-    budget = (60, 400)
+    budget = (300, 400)
 
     def cases(self, tier, seed):
         q = tier == "quick"
